@@ -497,6 +497,19 @@ def run_cyclic(ctx: Ctx) -> None:
             json.dumps(out)
         except Exception as e:
             rec.violation("serializer:not_json", feats + ["cyclic_instance"], {"cyclic": name}, repr(e)[:200])
+        def null_keys(x, path="$"):
+            if isinstance(x, dict):
+                for kk, vv in x.items():
+                    if vv is None:
+                        yield f"{path}.{kk}"
+                    yield from null_keys(vv, f"{path}.{kk}")
+            elif isinstance(x, list):
+                for ii, vv in enumerate(x):
+                    yield from null_keys(vv, f"{path}[{ii}]")
+        nk = list(null_keys(out))
+        rec.count("cyclic_outputs_scanned_for_null_keys")
+        if nk:
+            rec.violation("serializer:null_valued_key", feats + ["cyclic_instance"], {"cyclic": name}, f"{nk[:4]} in {json.dumps(out)[:200]}")
         if name == "shared_not_cyclic" and (out.get("next") != {"name": "shared", "kids": [], "extra": {}} or
                                             out.get("kids") != [out.get("next")] * 2):
             rec.violation("serializer:shared_reference_dropped", feats, {"cyclic": name}, json.dumps(out)[:300])
